@@ -137,6 +137,31 @@ impl Monitor for C01 {
                 ));
             }
         }
+        // ---- "the reserves it reports": the listing read in small pages (and with the default page
+        // size) reports every stored pool exactly once, with the same reserves as the one-page read
+        if post.pools.len() >= 2 && (out.ok() || c.step_no % 8 == 0) {
+            let lim = match c.step_no % 4 {
+                0 => None,
+                n => Some(n as u32),
+            };
+            let raw = c.w.pool_ids_raw();
+            match c.w.pools_via_query(lim) {
+                Ok(q) => {
+                    let ids: Vec<String> = q.iter().map(|p| p.pool_info.pool_identifier.clone()).collect();
+                    if ids != raw {
+                        return Err(viol("C01.listing", format!("Pools{{}} read in pages of {:?} lists {:?}, storage holds {:?}: reserves summed over the listing are not the reserves held", lim, ids, raw)));
+                    }
+                    if q != post.pools {
+                        return Err(viol("C01.listing", format!("Pools{{}} read in pages of {:?} reports other reserves / shares than the one-page read", lim)));
+                    }
+                }
+                Err(e) => return Err(viol("C01.listing", format!("Pools{{}} query failed: {e}"))),
+            }
+            c.stats.bump("probe.c01.pool_listing_paged");
+            if post.pools.len() > 10 && lim.is_none() {
+                c.stats.bump("probe.c01.pool_listing_beyond_default_page");
+            }
+        }
         // abstract state signature for coverage
         let npools = post.pools.len();
         let nfunded = post.pools.iter().filter(|p| !p.total_share.amount.is_zero()).count();
